@@ -80,6 +80,15 @@ let dump_annot ?(only : int list option) g (lr : amap) (lv : amap) =
 let show_entry e =
   Printf.sprintf "%d/%s/%d" (int_of_nat e.etarget) (ints e.epath) (if e.evalid then 1 else 0)
 
+(* ---- strings: token S97-98-99 (code points), S alone = empty ---- *)
+let str_of_tok t =
+  if String.length t <= 1 then [] else
+  List.map (fun x -> nat_of_int (int_of_string x))
+    (String.split_on_char '-' (String.sub t 1 (String.length t - 1)))
+let tok_of_str s = "S" ^ String.concat "-" (List.map (fun n -> string_of_int (int_of_nat n)) s)
+let next_tok () = let t = !toks.(!pos) in incr pos; t
+let next_str () = str_of_tok (next_tok ())
+
 let show_kind = function
   | KLeaf v -> if v then "L1" else "L0"
   | KDec (a, n) -> "D" ^ (if a then "1" else "0") ^ (if n then "1" else "0")
@@ -166,15 +175,6 @@ let run_g () =
         (List.map (fun p -> show_res show_execv (executev fuel g root p)) xpaths));
   print_endline (Buffer.contents b)
 
-(* ---- strings: token S97-98-99 (code points), S alone = empty ---- *)
-let str_of_tok t =
-  if String.length t <= 1 then [] else
-  List.map (fun x -> nat_of_int (int_of_string x))
-    (String.split_on_char '-' (String.sub t 1 (String.length t - 1)))
-let tok_of_str s = "S" ^ String.concat "-" (List.map (fun n -> string_of_int (int_of_nat n)) s)
-let next_tok () = let t = !toks.(!pos) in incr pos; t
-let next_str () = str_of_tok (next_tok ())
-
 (* stream F: format_parameter_value *)
 let read_elem () =
   match next_tok () with
@@ -207,6 +207,87 @@ let run_f () =
   print_endline ("out=" ^ show_res (fun out -> String.concat ";"
       (List.map (fun (k, o) -> tok_of_str k ^ "~" ^ show_oval o) out)) r
     ^ "|dec=" ^ dec ^ "|strs=" ^ show_decoded (strs v))
+
+(* ---- canonical dump of a front-end graph: nodes numbered in items() order from the root ---- *)
+let dump_canon (g : graph) (show_pay : int -> string) fuel root =
+  match items fuel g root with
+  | Ok its ->
+    let its = List.map int_of_nat its in
+    let num = Hashtbl.create 64 in
+    List.iteri (fun i n -> Hashtbl.replace num n i) its;
+    let c n = match Hashtbl.find_opt num n with Some i -> string_of_int i | None -> "x" in
+    let arr = Array.of_list g in
+    "ok:" ^ String.concat ";" (List.map (fun n ->
+      let nd = arr.(n) in
+      Printf.sprintf "%s:%s:%s:%s:%s" (c n) (show_kind nd.nkind) (show_pay n)
+        (String.concat "." (List.map (fun t -> c (int_of_nat t)) nd.outs))
+        (String.concat "," (List.map (fun (s, i) -> c (int_of_nat s) ^ "." ^ string_of_int (int_of_nat i)) nd.ins))) its)
+  | r -> show_res (fun _ -> "") r
+let canon_entries (g : graph) fuel root es =
+  match items fuel g root with
+  | Ok its ->
+    let its = List.map int_of_nat its in
+    let num = Hashtbl.create 64 in
+    List.iteri (fun i n -> Hashtbl.replace num n i) its;
+    String.concat ";" (List.map (fun e ->
+      Printf.sprintf "%d/%s/%d" (try Hashtbl.find num (int_of_nat e.etarget) with Not_found -> -1) (ints e.epath)
+        (if e.evalid then 1 else 0)) es)
+  | _ -> "?"
+
+(* stream R: regex AST -> graph, entries, samples; RS: generate_random_string *)
+let read_quant () =
+  match next_tok () with
+  | "n" -> None
+  | "*" -> Some QStar | "+" -> Some QPlus | "?" -> Some QOpt
+  | "e" -> let n = next_nat () in Some (QRange (n, None))
+  | "a" -> let n = next_nat () in Some (QRange (n, Some None))
+  | "b" -> let n = next_nat () in let m = next_nat () in Some (QRange (n, Some (Some m)))
+  | t -> failwith ("quant " ^ t)
+let read_citem () =
+  match next_tok () with
+  | "c" -> CChar (next_nat ())
+  | _ -> let a = next_nat () in let b = next_nat () in CRange (a, b)
+let rec read_regex () =
+  match next_tok () with
+  | "A1" -> RAlt1 (read_sub ())
+  | _ -> let s = read_sub () in let r = read_regex () in RAlt (s, r)
+and read_sub () =
+  match next_tok () with
+  | "S1" -> SOne (read_item ())
+  | _ -> let i = read_item () in let s = read_sub () in SCons (i, s)
+and read_item () =
+  match next_tok () with
+  | "C" -> let c = next_nat () in let q = read_quant () in IChar (c, q)
+  | "K" -> let n = next () in let l = List.init n (fun _ -> read_citem ()) in let q = read_quant () in
+           IClass (List.hd l, List.tl l, q)
+  | _ -> let nc = next () <> 0 in let r = read_regex () in let q = read_quant () in IGroup (nc, r, q)
+let show_payload st n =
+  match List.nth_opt st.b_pay n with
+  | Some (PChars s) -> tok_of_str s | Some PInput -> "I" | Some POutput -> "O" | _ -> "-"
+let run_r () =
+  let v = read_variant () in
+  let fuel = next_nat () in
+  let r = read_regex () in
+  match parse_regex fuel r with
+  | Ok (st, root) ->
+    let g = st.b_graph in
+    let b = Buffer.create 1024 in
+    Buffer.add_string b ("graph=" ^ dump_canon g (show_payload st) fuel root);
+    (match generate_paths v fuel g root aempty aempty with
+     | Ok (_, (es, stt)) ->
+       Buffer.add_string b ("|entries=" ^ canon_entries g fuel root es ^ "|status=" ^ show_res (fun () -> "") stt);
+       Buffer.add_string b ("|samples=" ^ String.concat ";" (List.map (fun e ->
+         show_res (fun tr -> tok_of_str (output_of st tr)) (execute fuel g root e.epath)) es))
+     | r -> Buffer.add_string b ("|fail=" ^ show_res (fun _ -> "") r));
+    print_endline (Buffer.contents b)
+  | r -> print_endline ("parse=" ^ show_res (fun _ -> "") r)
+let run_rs () =
+  let v = read_variant () in
+  let fuel = next_nat () in
+  let mn = next_nat () in
+  let mx = next_opt () in
+  let pat = if next () <> 0 then Some (read_regex ()) else None in
+  print_endline ("str=" ^ show_res tok_of_str (gen_random_string v fuel mn mx pat))
 
 (* stream O: SampleCache histories *)
 let ecls_of_code = function
@@ -279,6 +360,8 @@ let () =
            | "G" -> run_g ()
            | "GR" -> run_gr ()
            | "GO" -> run_go ()
+           | "R" -> run_r ()
+           | "RS" -> run_rs ()
            | "F" -> run_f ()
            | "O" -> run_o ()
            | t -> print_endline ("error=unknown-stream:" ^ t)
